@@ -39,8 +39,17 @@ def loggerOf (s : BSt) (gid : Nat) : Option Nat :=
 
 def dropName (s : BSt) (gid : Nat) : BSt := { s with names := s.names.filter (·.1 ≠ gid) }
 
+/-- is some live actor parked inside a public call through logger `gid`? (then `remove_logger` is outside its contract) -/
+def loggerBusy (s : BSt) (gid : Nat) : Bool :=
+  s.actors.any (fun x => x.alive && x.inCall == some gid && (match x.pend with | .none => false | _ => true))
+
+/-- bookkeeping after an operation of actor `a` through logger `gid`: remember the logger while the call is parked -/
+def noteCall (r : BSt × String) (a gid : Nat) : BSt × String :=
+  let parked := match (r.1.actor a).map (·.pend) with | some .none => false | some _ => true | none => false
+  (r.1.setActor a (fun x => { x with inCall := if parked then some gid else none }), r.2)
+
 /-- frontend operations (everything except `P` and `X`) -/
-def execFront (s : BSt) (w : List String) : BSt × String :=
+def execFront0 (s : BSt) (w : List String) : BSt × String :=
   match w with
   | ["K", dt] => ({ s with now := s.now + nat! dt }, "ok")
   | ["T", a, "start"] =>
@@ -94,6 +103,7 @@ def execFront (s : BSt) (w : List String) : BSt × String :=
         else if op == "F" then
           let f := s.nextFlag
           frontCall { s with nextFlag := f + 1 } a lgi (.flush f) 8 0 1 false 0
+        else if loggerBusy s gid then (s, "noop")
         else if op == "RB" then
           let f := s.nextFlag
           frontCall (dropName { s with nextFlag := f + 1 } gid) a lgi (.removal f) 8 0 4 false 0
@@ -113,7 +123,7 @@ def execFront (s : BSt) (w : List String) : BSt × String :=
     let a := nat! a
     let gid := nat! g
     let sl := natList sids
-    if !idleActor s a ∨ sl.any (fun sid => !(s.sinks.any (fun k => k.sid = sid ∧ k.alive))) then (s, "noop") else
+    if !idleActor s a ∨ loggerBusy s gid ∨ sl.any (fun sid => !(s.sinks.any (fun k => k.sid = sid ∧ k.alive))) then (s, "noop") else
     let existing := (List.range s.lgs.length).find? (fun i => (s.lgOf i).gid = gid ∧ !(s.lgOf i).erased)
     match existing with
     | some i =>
@@ -131,6 +141,19 @@ def execFront (s : BSt) (w : List String) : BSt × String :=
   | ["Q"] =>
     (s, s!"contexts={s.registry.length} loggers={(s.lgs.filter (fun l => !l.erased)).length}")
   | _ => (s, "bad-op")
+
+def execFront (s : BSt) (w : List String) : BSt × String :=
+  let r := execFront0 s w
+  if r.2 == "noop" || r.2 == "bad-op" then r else
+  match w with
+  | ["R", a] =>
+    let a := nat! a
+    let parked := match (r.1.actor a).map (·.pend) with | some .none => false | some _ => true | none => false
+    if parked then r else (r.1.setActor a (fun x => { x with inCall := none }), r.2)
+  | [op, a, g, _, _] => if op == "L" || op == "LS" || op == "IB" then noteCall r (nat! a) (nat! g) else r
+  | ["LB", a, g, _] => noteCall r (nat! a) (nat! g)
+  | [op, a, g] => if op == "FB" || op == "F" || op == "RB" then noteCall r (nat! a) (nat! g) else r
+  | _ => r
 
 /-- the injection runner handed to `poll` -/
 def inj (s : BSt) (site : Nat) : BSt :=
